@@ -224,7 +224,7 @@ def libRecord (fs : FS) (k : Kern) (lib : Lib) (r : NRec) : Option (Kern × Lib 
     | .movedFrom => some (k, { lib with movedFrom := (r.cookie, src) :: lib.movedFrom }, [ev])
     | .movedTo =>
       let moveSrc := (lib.movedFrom.find? (fun x => x.1 == r.cookie)).map (·.2)
-      let lib1 := match moveSrc with
+      let rekeyed : Option Lib := match moveSrc with
         | some ms =>
           match lookupP lib.wdForPath ms with
           | some movedWd =>
@@ -236,14 +236,14 @@ def libRecord (fs : FS) (k : Kern) (lib : Lib) (r : NRec) : Option (Kern × Lib 
               let sub := wfp.filter (fun x => isUnder ms x.1)
               let wfp2 := sub.foldl (fun acc x => setP (acc.filter (fun y => y.1 != x.1)) (src ++ x.1.drop ms.length) x.2) wfp
               let pfw2 := sub.foldl (fun acc x => setW acc x.2 (src ++ x.1.drop ms.length)) pfw
-              { lib with wdForPath := wfp2, pathForWd := pfw2 }
-            else { lib with wdForPath := wfp, pathForWd := pfw }
-          | none => lib
-        | none => lib
-      -- (repaired) a directory that arrives and is not covered yet gets its watches now
-      let (k2, lib2) :=
-        if lib1.recursive && r.isDir && (lookupP lib1.wdForPath src).isNone then addTreeWatches fs k lib1 src
-        else (k, lib1)
+              some { lib with wdForPath := wfp2, pathForWd := pfw2 }
+            else some { lib with wdForPath := wfp, pathForWd := pfw }
+          | none => none
+        | none => none
+      -- (repaired) a directory that arrives without a watch to re-key gets its watches now
+      let (k2, lib2) := match rekeyed with
+        | some l => (k, l)
+        | none => if lib.recursive && r.isDir then addTreeWatches fs k lib src else (k, lib)
       some (k2, lib2, [ev])
     | .ignored =>
       let pfw := lib.pathForWd.filter (fun x => x.1 != r.wd)
